@@ -21,9 +21,13 @@ func ZZ_C01_D2() {
 		f()
 		zzverif.SetMapOrder(0)
 	}
+	zzverif.SingleProc()
 	a := g.start()
 	var b *zzNode
 	onB(func() { b = g.start() })
+	// memory management is node-local too: replica B's object pools are emptied (as a
+	// garbage collection does) before every transaction, replica A's never
+	b.beforeTx = zzverif.PoolFlush
 	var ha, hb []byte
 	var oa, ob *zzBlockOut
 	for blk := 1; blk <= 2; blk++ {
